@@ -24,6 +24,9 @@
  *     cp T R GT GR                copy: Hstartwrite(T, R, length of GT/GR) reserves the space, THEN Hgetelement(GT, GR)
  *                                 reads the old element, then Hwrite + Hendaccess
  *     vg2 NAMEA NAMEB CLASS SEED  two new Vgroups attached A, B and detached B, A (descriptors not in ref order)
+ *     rw T R HEX                  rewrite the record of an EXISTING element the way Vdetach / VSdetach do:
+ *                                 HDreuse_tagref(T, R) + Hputelement(T, R, HEX)
+ *     vsattr I SEED               attach the (I mod n)-th EXISTING Vdata for writing, VSsetattr (header grows), detach
  *     del T R                     Hdeldd of an existing element (sessions of the first sentence only)
  *     sdsnd NAME NT D0[xD1..]     SDcreate + SDendaccess, no data written (metadata-only session)
  *     sdgattr NAME SEED           SDsetattr on the file: a new global attribute
@@ -195,6 +198,24 @@ static int do_op(sess_t *s, char *line)
         if (Vaddtagref(b, 700 + (int32)(rnd() % 5), 1 + (int32)(rnd() % 50)) == FAIL) rc = -1;
         if (Vdetach(b) == FAIL) rc = -1;
         if (Vdetach(a) == FAIL) rc = -1;
+        return rc;
+    }
+    if (!strcmp(tok[0], "rw") && nt >= 4) {
+        int n = unhex(tok[3], buf);
+        if (need_h(s, 0, 0)) return -1;
+        if (HDreuse_tagref(s->fid, (uint16)atoi(tok[1]), (uint16)atoi(tok[2])) == FAIL) return -1;
+        return Hputelement(s->fid, (uint16)atoi(tok[1]), (uint16)atoi(tok[2]), buf, n) == FAIL ? -1 : 0;
+    }
+    if (!strcmp(tok[0], "vsattr") && nt >= 3) {
+        int32 vs, ref = -1, refs[256], v; int n = 0, rc = 0;
+        if (need_h(s, 0, 0)) return -1;
+        rnd_state = (unsigned)atoi(tok[2]); v = (int32)rnd();
+        while (n < 256 && (ref = VSgetid(s->fid, ref)) != FAIL) refs[n++] = ref;
+        if (n == 0) return 0;
+        vs = VSattach(s->fid, refs[atoi(tok[1]) % n], "w");
+        if (vs == FAIL) return -1;
+        if (VSsetattr(vs, _HDF_VDATA, "crashattr", DFNT_INT32, 1, &v) == FAIL) rc = -1;
+        if (VSdetach(vs) == FAIL) rc = -1;
         return rc;
     }
     if (!strcmp(tok[0], "del") && nt >= 3) {
